@@ -443,6 +443,8 @@ def int_lax_coercion_loader(data):
         raise ValueLoadError(e_str, data)
     except TypeError:
         raise TypeLoadError(Union[int, float, str], data)
+    except OverflowError as e:
+        raise ValueLoadError(str(e), data)
 
 
 INT_PROVIDER = ScalarProvider(
@@ -456,7 +458,10 @@ INT_PROVIDER = ScalarProvider(
 
 def float_strict_coercion_loader(data):
     if type(data) in (float, int):
-        return float(data)
+        try:
+            return float(data)
+        except OverflowError as e:
+            raise ValueLoadError(str(e), data)
     raise TypeLoadError(Union[float, int], data)
 
 
@@ -470,6 +475,8 @@ def float_lax_coercion_loader(data):
         raise ValueLoadError(e_str, data)
     except TypeError:
         raise TypeLoadError(Union[int, float, str], data)
+    except OverflowError as e:
+        raise ValueLoadError(str(e), data)
 
 
 FLOAT_PROVIDER = ScalarProvider(
@@ -548,6 +555,8 @@ def fraction_strict_coercion_loader(data):
             return Fraction(data)
         except ValueError:
             raise ValueLoadError("Bad string format", data)
+        except ZeroDivisionError as e:
+            raise ValueLoadError(str(e), data)
     raise TypeLoadError(Union[str, Fraction], data)
 
 
@@ -560,6 +569,8 @@ def fraction_lax_coercion_loader(data):
         str_e = str(e)
         if str_e.startswith("Invalid literal"):
             raise ValueLoadError("Bad string format", data)
+        raise ValueLoadError(str(e), data)
+    except (ZeroDivisionError, OverflowError) as e:
         raise ValueLoadError(str(e), data)
 
 
@@ -588,6 +599,8 @@ def complex_lax_coercion_loader(data):
         raise TypeLoadError(Union[str, complex], data)
     except ValueError:
         raise ValueLoadError("Bad string format", data)
+    except OverflowError as e:
+        raise ValueLoadError(str(e), data)
 
 
 COMPLEX_PROVIDER = ScalarProvider(
